@@ -82,10 +82,7 @@ func ZZ_C19_Distribution() {
 		minterAddrs = append(minterAddrs, ext.Hex())
 	}
 	// the executed batch
-	nt := 1
-	if vrt.Thorough() {
-		nt = 1 + vrt.Choose("txs", 2)
-	}
+	nt := 1 + vrt.Choose("txs", 2)
 	{
 		zzFeeBound = big.NewInt(32) // both tiers: small fees/commissions keep the pro-rata products (fee*fee/fee) decidable
 	}
